@@ -2,12 +2,15 @@
 """print the sub-agent prompt for one property id (text of the property only; nothing from /verif's machinery)"""
 import json, sys
 pid = sys.argv[1]
+avoid = sys.argv[2] if len(sys.argv) > 2 else None
+tag = sys.argv[3] if len(sys.argv) > 3 else ''
 for l in open('/verif/properties.jsonl'):
     p = json.loads(l)
     if p['id'] == pid:
         break
-wt = '/tmp/wt/seed-%s' % pid
-out = '/tmp/seedout/%s' % pid
+wt = '/tmp/wt/seed-%s%s' % (pid, tag)
+out = '/tmp/seedout/%s%s' % (pid, tag)
+AVOID = ('\n\nAn earlier exercise already studied a change in `%s`; pick a DIFFERENT mechanism in a different function (ideally a different file) so that the two are independent.' % avoid) if avoid else ''
 print(f"""You are helping test a verification effort for the Rust PDF library bzsanti/oxidizePdf (crate `oxidize-pdf`, source under `oxidize-pdf-core/src`). Your job is to play the role of a developer who introduces a subtle regression.
 
 You have your own scratch git worktree of the repository at `{wt}` (a checkout of the current development tree; `{wt}/target` already holds compiled dependencies). Work ONLY inside `{wt}` and write your deliverables to `{out}`. Do not read or touch `/repo`, `/verif` or `/root`. There is no network; always pass `--offline` to cargo. Use `cd {wt} && cargo ... --offline -j 6` (keep -j 6: other builds share this machine).
@@ -20,12 +23,14 @@ The property (a semantic property of the library that must hold for every input/
   quantifier: {p['quantifier']['text']}
   anchored in: {', '.join(p['anchors']['files'])}
 
+{AVOID}
+
 Task: make ONE small, realistic change to the library source (under `oxidize-pdf-core/src`, not tests) that BREAKS this property while the crate still compiles and the existing tests still pass. The change should look like something a maintainer could plausibly commit (a refactor that drops a guard, a wrong operator, a reordered step, a missed case, a changed default, two sites that each look fine alone...). It must need something specific to manifest — an unusual input, a particular multi-step sequence of operations, a particular configuration, a particular interleaving or failure — NOT something ordinary use would expose at once (otherwise the existing tests would catch it). Do not edit, delete or disable any existing test. Do not add cfg flags or dead code whose only purpose is to hide the change.
 
 Steps:
 1. Read the anchored code and the existing tests around it to learn what the tests do and do not cover.
 2. Make the change. Check it compiles: `cargo check --offline -j 6 -p oxidize-pdf --lib`.
-3. Write a demonstration: a new integration test file `oxidize-pdf-core/tests/seed_{pid.lower()}_demo.rs` (or a unit test in a new `#[cfg(test)]` module if it needs private items) that FAILS with your change and PASSES without it. Verify both directions yourself (use `git stash` / `git diff > patch; git checkout` to flip the change; run e.g. `cargo test --offline -j 6 -p oxidize-pdf --test seed_{pid.lower()}_demo`).
+3. Write a demonstration: a new integration test file `oxidize-pdf-core/tests/seed_{pid.lower()}{tag}_demo.rs` (or a unit test in a new `#[cfg(test)]` module if it needs private items) that FAILS with your change and PASSES without it. Verify both directions yourself (use `git stash` / `git diff > patch; git checkout` to flip the change; run e.g. `cargo test --offline -j 6 -p oxidize-pdf --test seed_{pid.lower()}{tag}_demo`).
 4. Check that existing tests still pass with your change. The full suite is large (324 test binaries, ~15 min); at minimum run the library unit tests of the modules you touched and the integration tests that mention the functions you touched, e.g. `cargo test --offline -j 6 -p oxidize-pdf --lib <module_path_filter>` and `cargo test --offline -j 6 -p oxidize-pdf --test <name>`; if you can afford it run `cargo nextest run --offline -j 6 -p oxidize-pdf --lib`. Note: about 31 tests (e.g. in `per_font_char_tracking_test`, tests needing `test-pdfs/SourceHanSansSC-Regular.otf` or `tests/fixtures/issue_235_t.pdf`) fail on the unchanged tree in this sandbox because two fixture files are emptied — ignore those.
    If an existing test fails because of your change, pick a different change.
 5. Deliver into `{out}`:
